@@ -113,8 +113,9 @@ NumAt(st) ==
 NumWellFormed(st) ==
     LET r == NumAt(st) IN
     /\ (r.c1 < st.len => ByteAt(st, r.c1) \notin WS)                      \* window not exhausted
-    /\ (r.cur = r.c1 => r.c1 >= st.len)                                    \* no digit only at end of file
-    /\ (r.cur < st.len => ByteAt(st, r.cur) \in WS)                        \* numeral delimited
+    /\ IF r.cur = r.c1                                                      \* no digit: nil, cursor behind the white space
+       THEN r.c1 >= st.len \/ ~NumStartable(ByteAt(st, r.c1))              \* end of file, or a byte no numeral starts with
+       ELSE (r.cur < st.len => ByteAt(st, r.cur) \in WS)                    \* numeral delimited
 
 (* overwrites that a later overwrite covers completely can be forgotten *)
 RECURSIVE CompactFrom(_, _)
@@ -147,7 +148,7 @@ DoWrite(st, n) ==
     IN IF n = 0 THEN R([st EXCEPT !.last = "write", !.nw = @ + 1], <<"ok">>)
        ELSE R([st EXCEPT !.ov = CompactOv(@ \o gap \o <<<<p, n, "w", st.nw>>>>),
                          !.len = IMax(@, p + n), !.cur = p + n,
-                         !.last = "write", !.pend = (st.buf # "no"), !.nw = @ + 1],
+                         !.last = "write", !.pend = (st.pend \/ st.buf # "no"), !.nw = @ + 1],
               <<"ok">>)
 
 DoSeek(st, wh, off) ==
@@ -176,7 +177,7 @@ Apply0(st, o) ==
     ELSE IF o.op \in {"flush", "setvbuf"} /\ ~Writable(st.mode) THEN R(st, <<"any">>)
     ELSE CASE o.op = "read" ->
                 (IF st.cur >= st.len THEN R([st EXCEPT !.last = "read"], <<"eof">>)
-                 ELSE LET e == IMin(st.cur + o.n, st.len)
+                 ELSE LET e == IF o.a \in RestCounts THEN st.len ELSE IMin(st.cur + o.n, st.len)
                       IN R([st EXCEPT !.cur = e, !.last = "read"], Data(st, st.cur, e)))
            [] o.op = "readline" ->
                 (LET r == LineAt(st, st.cur) IN R([st EXCEPT !.cur = r.cur, !.last = "read"], r.res))
@@ -242,7 +243,11 @@ Legal0(st, o) ==
                        Readable(st.mode) => (st.last # "write" /\ st.cur # -1 /\ LegalM(st, o.fs, 1))
                  [] o.op = "write" -> Writable(st.mode) => st.last # "read"
                  [] o.op = "seek" -> o.a = "cur" => st.cur # -1
-                 [] o.op = "setvbuf" -> ~st.pend
+                 \* ISO C leaves setvbuf after I/O undefined; the choice made here (and by
+                 \* glibc, which flushes): it is in scope at any point and must not lose
+                 \* output the handle has accepted - the pending bytes stay pending (no
+                 \* visibility claim) until the next flush / seek / close
+                 [] o.op = "setvbuf" -> TRUE
                  [] OTHER -> TRUE
 
 Legal(st, o) == Legal0(st, NormOp(o))
